@@ -35,6 +35,7 @@ static uint64_t d2b(double d) { uint64_t b; memcpy(&b, &d, 8); return b; }
 int main(void) {
     struct Heap *heap = construct_heap();
     char line[256];
+    setvbuf(stdout, NULL, _IOLBF, 0); /* so that the last reply before a sanitizer abort is not lost */
     while (fgets(line, sizeof line, stdin)) {
         char op = line[0];
         uint64_t a, b, c;
